@@ -4,8 +4,9 @@ set -u
 patch="$1"; shift
 cd /verif
 git -C /repo diff --quiet || { echo "/repo is dirty"; exit 3; }
-git -C /repo apply "$patch" || { echo "patch does not apply"; exit 3; }
-trap 'git -C /repo checkout -q -- . ; git -C /repo clean -fdq -e execution >/dev/null' EXIT
+git -C /repo apply "$patch" 2>/dev/null || git -C /repo apply --3way "$patch" >/dev/null 2>&1 || { echo "patch does not apply"; git -C /repo reset -q --hard; exit 3; }
+trap 'git -C /repo reset -q --hard ; git -C /repo clean -fdq -e execution >/dev/null' EXIT
+if ! (cd /repo && GOFLAGS=-mod=mod GOPROXY=off go build ./... 2>/dev/null); then echo "patched tree does not build"; exit 3; fi
 mkdir -p /tmp/vtmp; cp -f known_findings.json /tmp/vtmp/ 2>/dev/null
 for p in "$@"; do
   out=$(bin/gvlint check -property "$p" -verif /tmp/vtmp 2>&1); ec=$?
